@@ -65,7 +65,16 @@ def main():
         # demonstration
         demo_cmd = meta.get("demo_cmd", "")
         demo_cmd = demo_cmd.replace("/tmp/seed/out/" + name, sd)
+        demo_cmd = demo_cmd.replace("<out>", os.path.dirname(sd))
+        demo_cmd = re.sub(r"\s{2,}[(#].*$", "", demo_cmd.strip())        # trailing prose "(demo file goes to …)" / "# …"
         place = re.search(r"\bto\s+([\w./-]+/)", str(meta.get("demo_placement", "")))
+        if not place and "cp " not in demo_cmd:                            # infer the package from the go test argument
+            place = re.search(r"\s\./([\w/.-]+?)/?(?:\s|$)", demo_cmd)
+            if place:
+                class _P:                                                   # same interface as a match object
+                    def __init__(s, g): s.g = g
+                    def group(s, i): return s.g
+                place = _P(place.group(1).rstrip("/") + "/")
         if place and "cp " not in demo_cmd:
             for fn in os.listdir(os.path.join(sd, "demo")):
                 src = os.path.join(sd, "demo", fn)
